@@ -313,6 +313,12 @@ Clauses(e) ==
     [] e.op = "peek" -> PeekClauses(e)
     [] e.op = "prim" -> PrimClauses(e)
     [] e.op = "calc" -> CalcClauses(e)
+    [] e.op = "encodehuge" ->      \* C04 on bodies of up to 40 MiB: only the head of the frame and its size are logged
+         IF P("C04") /\ e.t \in FrameTypes /\ e.res = "ok" /\ Len(e.bytes) >= BodyOff(e.t)
+         THEN LET want == Digits(e.plen - BodyOff(e.t) - TrailerLen(e.t), 4) IN
+              (IF Ord(EndianOf(e.t), SubSeq(e.bytes, LenOff(e.t) + 1, LenOff(e.t) + 4)) # want THEN {<<"C04.wire-length", "none">>} ELSE {})
+              \cup (IF e.vpost[LenName(e.t)] # want THEN {<<"C04.object-length", "none">>} ELSE {})
+         ELSE {}
     [] e.op = "regfactory" ->      \* the tables this run is judged against contain the registration the application made
          IF Lookup(e.from, e.bytes) = e.t THEN {} ELSE {<<"C12.registration-not-in-tables", "none">>}
     [] OTHER -> {}
